@@ -72,7 +72,7 @@ def load_guesser(base, skip_brute=False, skip_case=False, folder='Grammar'):
     return g
 
 
-def generate(g, cap_pts=200000, cap_guesses=2000000):
+def generate(g, cap_pts=200000, cap_guesses=2000000, skip_markov=False):
     """Full PcfgQueue run; returns (list of (pt, prob, [guesses]), capped)."""
     Q = tree.imp('lib_guesser.priority_queue').PcfgQueue
     q = Q(g)
@@ -84,6 +84,8 @@ def generate(g, cap_pts=200000, cap_guesses=2000000):
         it = q.next()
         if it is None:
             return res, False
+        if skip_markov and it['pt'][0][0][0] == 'M':
+            continue
         del lines[:]
         n = g.create_guesses(it['pt'])
         res.append((tuple(tuple(x) for x in it['pt']), it['prob'], list(lines), n))
